@@ -19,12 +19,18 @@ checks = {c["property_id"]: c for c in man["checks"]}
 def sh(cmd, **kw):
     p = subprocess.run(cmd, shell=True, stdout=subprocess.PIPE, stderr=subprocess.STDOUT, **kw)
     return p.returncode, p.stdout.decode("utf-8", "replace")
+RUN_D = d          # where the checks are run from
 if SCRATCH:
     rc, out = sh("git -C /repo worktree add --detach %s HEAD && cp /repo/config.h %s/ && cp -n /repo/site_def.h %s/ 2>/dev/null; true" % (SCRATCH, SCRATCH, SCRATCH))
     REPO = SCRATCH
     os.environ["ZVBI_REPO"] = SCRATCH
+    # the checks regenerate lean/ZvbiModel/Generated/* and rebuild the model driver from the tree they are pointed at:
+    # run them from a private copy of /verif so that they cannot disturb (or be disturbed by) checks of /repo itself,
+    # and so that the evidence files of /verif keep coming from /repo
+    RUN_D = SCRATCH + "_verif"
+    rc, out = sh("rsync -a --delete --exclude .git --exclude replays %s/ %s/" % (d, RUN_D))
     import atexit
-    atexit.register(lambda: sh("git -C /repo worktree remove --force %s" % SCRATCH))
+    atexit.register(lambda: sh("git -C /repo worktree remove --force %s; rm -rf %s" % (SCRATCH, RUN_D)))
 rc, out = sh("git -C %s status --porcelain --untracked-files=no" % REPO)
 if out.strip():
     print("refusing: %s has local modifications:\n" % REPO + out); sys.exit(2)
@@ -49,7 +55,7 @@ for sid in sorted(os.listdir(os.path.join(d, "seeded"))):
             c = checks[p]
             cmd = c["quick_cmd"] if tier == "quick" else c.get("thorough_cmd", c["quick_cmd"])
             t = time.time()
-            rc, out = sh(cmd, cwd=d, env=dict(os.environ, VERIF_TIER=tier))
+            rc, out = sh(cmd, cwd=RUN_D, env=dict(os.environ, VERIF_TIER=tier))
             v = [l for l in out.split("\n") if l.startswith("VIOLATION")]
             r[p] = {"rc": rc, "caught": rc == 1 and bool(v), "line": v[0] if v else "", "wall": round(time.time() - t)}
         res[sid] = {"property": meta["property"], "tier": tier, "results": r}
